@@ -19,8 +19,9 @@ CYCLES = [0.25, 0.5, 1, 1, 1, 1.5, 2, 3]
 
 # varied first letters: a special case keyed on how a mnemonic *starts* (e.g. VEX `v...`) must not go unnoticed
 BASES_X86 = ["zzadd", "zzmul", "zzmov", "zzfma", "zzcmp", "zzld", "zzshuf", "zzcvt", "vzzadd", "vzzcvtsi", "pzzshuf",
-             "kzzmov", "czzmov"]
-BASES_A64 = ["qqadd", "qqmul", "qqmov", "qqfmla", "qqcmp", "qqldr", "qqstr", "qqdup", "fqqadd", "sqqmul", "bqq"]
+             "kzzmov", "czzmov",
+             "zo", "zt", "zzn", "z"]       # short stems (like or, bt, in, shl): the size-suffix fall-back is about the last letter only
+BASES_A64 = ["qqadd", "qqmul", "qqmov", "qqfmla", "qqcmp", "qqldr", "qqstr", "qqdup", "fqqadd", "sqqmul", "bqq", "qb", "q"]
 
 
 def rand_case(rng, s):
